@@ -44,7 +44,30 @@ type affVerdict struct {
 	nonlin   bool
 }
 
+// R02.8: every store that gives Block.Length a non-zero value (package piece) happens under
+// sec.Padding == false for some section tested on the path: a block is never made of bytes whose
+// section was not looked at (a "fast path" that splits p.Length blindly covers padding bytes).
+func runC02PadAware(c *kit.Ctx, k *keyer) {
+	fLen := c.Field("internal/piece", "Block", "Length")
+	fSecPadding := c.Field("internal/filesection", "FileSection", "Padding")
+	notPad := c.FieldBoolSpec(fSecPadding, false, kit.DefaultDeep)
+	n := 0
+	for _, st := range fieldStores(c, fLen) {
+		if !inPkg(st.Fn, c, "internal/piece") {
+			continue
+		}
+		if z, ok := kit.Canon(st.Val).IntConst(); ok && z == 0 {
+			continue
+		}
+		n++
+		c.Check(notPad.Holds(st.Store, 2), "R02.8", k.key(st.Fn, "Block.Length set"), posOf(st.Store),
+			"Block.Length receives bytes only under sec.Padding==false", "a block is given a length without the section's Padding flag having been tested false on the path: blocks can cover padding bytes (requested from peers although padding is never transferred)")
+	}
+	c.Floor("R02.8", "non-zero stores to Block.Length in package piece", n, 1)
+}
+
 func runC02Affine(c *kit.Ctx, k *keyer) {
+	runC02PadAware(c, k)
 	// ------------------------------------------------------------------ R02.6
 	{
 		root := c.Func("internal/piece", "(*Piece).calculateBlocks")
